@@ -1,8 +1,8 @@
 (* Properties/C08.v — dynamic values obey equality, ordering, hashing and conversion laws.
    Only statements, each closed by [exact] of a lemma of C08/*.v, and their assumptions.
    veq / vpcmp / vcmp / vhash / value_signature / try_clone / try_to_owned / into_value / from_value are the model of
-   zvariant's Value (C08/Model.v); icmp, clash, has_nan, has_fd, wfb, has_type, wt, tuple_variant, T4, Known_C08 are
-   specification-side definitions (C08/Spec.v). *)
+   zvariant's Value (C08/Model.v, with Signature::cmp as repaired by fix: commit 668536e1); icmp, sig_tcmp, has_nan, has_fd,
+   wfb, has_type, wt, tuple_variant, T4, Known_C08 are specification-side definitions (C08/Spec.v). *)
 From ZV Require Import Base.Bytes Base.Res Base.Sig C08.Model C08.Spec C08.Algebra C08.SigFacts C08.ValueFacts C08.Order
      C08.Clone C08.Conv C08.Proofs.
 
@@ -74,7 +74,21 @@ Theorem C08_reference_order :
 Proof. exact (conj icmp_T4 (conj icmp_dual icmp_Eq)). Qed.
 Print Assumptions C08_reference_order.
 
-(* ================= the full statement is refuted on this tree ================= *)
+(* Signature's hand-written Ord (after fix: commit 668536e1) is a total order consistent with its ==, on all signatures;
+   it coincides with the reference order sig_tcmp *)
+Theorem C08_sig_ord :
+  (forall a b : sig, sig_cmp b a = CompOpp (sig_cmp a b)) /\
+  (forall a b c : sig, T4 (sig_cmp a b) (sig_cmp b c) (sig_cmp a c)) /\
+  (forall a b : sig, sig_cmp a b = Eq <-> Model.sig_eqb a b = true) /\
+  (forall a b : sig, Model.sig_eqb a b = true <-> a = b).
+Proof. exact sig_ord_total. Qed.
+Print Assumptions C08_sig_ord.
+
+Theorem C08_sig_ord_reference : forall a b : sig, sig_cmp a b = sig_tcmp a b.
+Proof. exact sig_cmp_tcmp. Qed.
+Print Assumptions C08_sig_ord_reference.
+
+(* ================= the full statement is refuted on this tree (NaN, descriptors, tuples with Value members) ================= *)
 
 (* Spec.C08_full_statement = == is an equivalence /\ cmp is a total order consistent with == and with partial_cmp /\
    equal values hash equally /\ clones and owned copies are == and keep the signature /\ well-formed values are typed by their
@@ -88,15 +102,13 @@ Proof. exact eq_refl_refuted. Qed.
 Print Assumptions C08_eq_refl_refuted.
 
 Theorem C08_ord_consistent_refuted :
-  (exists a b, has_nan a = false /\ has_nan b = false /\ vcmp a b = Eq /\ veq a b = false) /\
-  (exists a b, wfb a = true /\ wfb b = true /\ has_nan a = false /\ has_nan b = false /\ vcmp a b = Eq /\ veq a b = false) /\
-  (exists a, vcmp a a = Eq /\ veq a a = false).
+  (exists a, vcmp a a = Eq /\ veq a a = false) /\
+  (exists a b, wfb a = true /\ wfb b = true /\ vcmp a b = Eq /\ veq a b = false /\ vhash a <> vhash b).
 Proof. exact ord_consistent_refuted. Qed.
 Print Assumptions C08_ord_consistent_refuted.
 
 Theorem C08_ord_trans_refuted :
-  (exists a b c, vcmp a b = Eq /\ vcmp b c = Eq /\ vcmp a c = Lt /\ has_nan a = false /\ has_nan b = false /\ has_nan c = false) /\
-  (exists a b c, vcmp a b = Eq /\ vcmp b c = Eq /\ vcmp a c = Lt /\ any_clash [a; b; c] = false).
+  exists a b c, wfb a = true /\ wfb b = true /\ wfb c = true /\ vcmp a b = Eq /\ vcmp b c = Eq /\ vcmp a c = Lt.
 Proof. exact ord_trans_refuted. Qed.
 Print Assumptions C08_ord_trans_refuted.
 
@@ -120,31 +132,25 @@ Theorem C08_conv_tuple_variant_refuted :
 Proof. exact conv_tuple_variant_refuted. Qed.
 Print Assumptions C08_conv_tuple_variant_refuted.
 
-Theorem C08_dict_sigkey_refuted :
-  exists d1 d2, dict_append (VDict SSig SU8 []) (VSig SU8) (VU8 1) = Ok d1 /\
-                dict_append d1 (VSig SBool) (VU8 2) = Ok d2 /\ d2 = VDict SSig SU8 [(VSig SU8, VU8 2)].
-Proof. exact dict_sigkey_refuted. Qed.
-Print Assumptions C08_dict_sigkey_refuted.
-
 (* ================= ... and holds outside the known classes ================= *)
 
 Theorem C08_eq_refl_partial : forall a : value, has_nan a = false -> veq a a = true.
 Proof. exact veq_refl. Qed.
 Print Assumptions C08_eq_refl_partial.
 
-(* the hand-written Ord IS the reference order on NaN-free pairs whose comparison meets no two different signatures *)
-Theorem C08_ord_reference_partial : forall a b : value, has_nan a = false -> has_nan b = false -> clash a b = false ->
+(* the hand-written Ord IS the reference order on all NaN-free values *)
+Theorem C08_ord_reference_partial : forall a b : value, has_nan a = false -> has_nan b = false ->
   vpcmp a b = Some (icmp a b) /\ vcmp a b = icmp a b.
-Proof. intros a b Ha Hb Hc. split; [exact (vpcmp_agree a b Ha Hb Hc) | exact (vcmp_agree a b Ha Hb Hc)]. Qed.
+Proof. intros a b Ha Hb. split; [exact (vpcmp_agree a b Ha Hb) | exact (vcmp_agree a b Ha Hb)]. Qed.
 Print Assumptions C08_ord_reference_partial.
 
-Theorem C08_ord_consistent_partial : forall a b : value, has_nan a = false -> has_nan b = false -> clash a b = false ->
+Theorem C08_ord_consistent_partial : forall a b : value, has_nan a = false -> has_nan b = false ->
   (vcmp a b = Eq <-> veq a b = true).
 Proof. exact ord_consistent_partial. Qed.
 Print Assumptions C08_ord_consistent_partial.
 
 Theorem C08_ord_trans_partial : forall a b c : value, has_nan a = false -> has_nan b = false -> has_nan c = false ->
-  clash a b = false -> clash b c = false -> clash a c = false -> T4 (vcmp a b) (vcmp b c) (vcmp a c).
+  T4 (vcmp a b) (vcmp b c) (vcmp a c).
 Proof. exact ord_trans_partial. Qed.
 Print Assumptions C08_ord_trans_partial.
 
@@ -163,7 +169,7 @@ Proof. exact conv_roundtrip. Qed.
 Print Assumptions C08_conv_partial.
 
 (* everything at once for a case of three values outside the classes
-   Known_C08 l = existsb has_nan l || any_clash l || existsb has_fd l *)
+   Known_C08 l = existsb has_nan l || existsb has_fd l *)
 Theorem C08_laws_partial : forall a b c : value, Known_C08 [a; b; c] = false ->
   veq a a = true /\ veq a b = veq b a /\ (veq a b = true -> veq b c = true -> veq a c = true) /\
   vcmp b a = CompOpp (vcmp a b) /\ T4 (vcmp a b) (vcmp b c) (vcmp a c) /\ (vcmp a b = Eq <-> veq a b = true) /\
